@@ -233,6 +233,16 @@ def ArrayVal.fromBody (ops : NumOps) (dataShape : List Nat) (body : List (String
 def labelIndex (labels : List String) (l : String) : Option Nat :=
   (labels.zipIdx.filter (fun p => p.1 == l)).getLast?.map (·.2)
 
+/-- `Array.get_slice(label)`: slice number `labelIndex` of the data (its token is supplied by the store: `sliceTok`) as a
+    new Array built by the constructor from the stack's own units, dim vectors, dim units and dim names -/
+def ArrayVal.getSlice (ops : NumOps) (sliceTok : String → Nat → String) (a : ArrayVal) (l : String) : R (Nat × ArrayVal) :=
+  match labelIndex a.labels l with
+  | none => throw (.error "KeyError")
+  | some i => do
+    let s ← mkArray ops (sliceTok a.dataTok i) (a.dataShape.drop 1) a.units (some (a.dims.map DimArg.vec))
+      (some a.dimNames) (some a.dimUnits) .none
+    pure (i, s)
+
 end EmdModel
 
 namespace EmdModel
